@@ -137,6 +137,8 @@ func VP_C14_history() {
 					delete(live, sid)
 				}
 			}
+			// a client that starts the exchange gets its challenge, whatever other sessions have left behind
+			vpAssert(kind != 0 || (err == nil && r.NtlmMessage != ""), "a-negotiate-message-is-answered-with-a-challenge")
 			if r.NtlmMessage != "" {
 				vpReach("challenged")
 				vpAssert(kind == 0 && err == nil, "challenge-only-answers-a-negotiate")
